@@ -42,28 +42,28 @@ CHECKS = {
          "States are real ConnectionSet values reached by generator steps and Union/Intersection/Subtract with every previously reached state as operand; after every transition denotation, non-modification, non-aliasing, canonical form and all predicates are compared with a bitset model over protocol x port cells.",
          "Port cells from the alphabet's constants; named ports only through the clause the statement makes.", "§3 C11"),
  "C12": (EXPL, "exhaustive single (thorough: double) structural mutation of every node of a seed corpus; every mutant through list, list+exposure, diff both ways and eval in crash-isolated workers",
-         "Every drop/null/empty/retype/value mutation of every node of one valid manifest per kind is analysed; any panic, worker death or watchdog expiry is a violation.",
+         "Every drop/null/empty/retype/value mutation of every node of one valid manifest per kind is analysed, plus valid documents with unsupported API fields (unmutated and mutated) and strided valid worlds of the exposure / ANP / ingress alphabets through every command and format; any panic, worker death or watchdog expiry is a violation.",
          "Mutation alphabet and seed corpus are bounded; byte-level mutations only in thorough tier.", "§3 C12"),
  "C13": (EXPL, "valid worlds x all subsets (<=2) of a junk alphabet x all placements x stopOnError x command, on real files",
          "Relation equality with the junk-free run, severe entries for every unreadable/malformed document, stop-on-error and fatal clauses checked for every combination.",
-         "Junk alphabet bounded (9 kinds).", "§3 C13"),
+         "Junk alphabet bounded (19 elements).", "§3 C13"),
  "C14": (EXPL, "bounded-exhaustive worlds x every applicable single-step edit; oracle-free pointwise relations between the two runs",
-         "For every world and every edit of the listed kinds the two list results are compared on the common refinement (subset / superset / equality / locality).",
+         "For every world and every edit of the listed kinds the two list results (plain, and base connectivity of list --exposure) are compared on the common refinement (subset / superset / equality / locality).",
          "Backstop against a misreading shared by the reference and the tool; classification of edits uses only selector matching.", "§3 C14"),
  "C15": (MC, "explicit-state BFS over operation histories of the real PolicyEngine with canonical private-state hashing (overlay dump); invariant = agreement with a fresh engine and the reference in every state",
-         "From the empty engine and pre-populated seeds, every operation of the alphabet (inserts, updates, deletes incl. absent objects and equal copies, queries) is applied in every reached state; states are merged by the full private-state dump; in every state every query must equal a fresh engine on the current objects and the reference.",
-         "Merging by dump is sound because the dump is the whole state the methods read (LRU recency excluded, capacity never reached).", "§3 C15"),
+         "From the empty engine and pre-populated seeds, every operation of the alphabet (inserts, updates, deletes incl. absent objects and equal copies, queries) is applied in every reached state; a state is the pair (full private-state dump of the engine, model of the current objects); in every state every query must equal a fresh engine on the current objects and the reference.",
+         "Merging is sound because the dump is the whole state the methods read (LRU recency excluded, capacity never reached) and the model is the whole input of the oracle; keying by the dump alone would hide operations that silently do nothing.", "§3 C15"),
  "C16": (EXPL, "worlds with name collisions x every focus string x formats; filter oracle on the unfocused relation",
-         "Focused API relation must equal the filtered unfocused relation for every focus string (names, ns/names, absent names, ingress-controller) and the formatted outputs must parse to the same.",
+         "Focused API relation must equal the filtered unfocused relation for every focus string (names, ns/names, absent names, ingress-controller) and the formatted outputs must parse to the same; with exposure the exposure sections must equal the filtered unfocused sections format by format.",
          "Uses the C09 parsers.", "§3 C16"),
  "C17": (EXPL, "base worlds x every re-expression of each workload (kind x replicas x bare pods with owner); relation equality modulo [Kind]",
-         "Every re-expression is analysed and compared with the base relation; one peer per workload; no self entry; name-collision worlds.",
+         "Every re-expression (x 4 document orders) is analysed and compared with the base relation and, without admin policies, with the base list --exposure report; one peer per workload; no self entry; name-collision worlds.",
          "Kinds and replica counts bounded as listed.", "§3 C17"),
  "C18": (EXPL, "directories x full product of valid flag combinations on the freshly built CLI binary vs library calls",
          "stdout bytes vs library string, -f file vs stdout, exit status vs library error, resource-info API vs directory API.",
          "~25 ms per spawn bounds the product.", "§3 C18"),
  "C19": (MC, "exhaustive enumeration of input orders: all permutations for n<=7(8), all position pairs over base orders for n up to 51 (both sides of pdqsort's thresholds); each conflict kind at every position",
-         "The 'states' are input orders; the transition relation is the sort's comparison sequence; every enumerated order containing a conflict must be rejected with an error naming it, through list and diff.",
+         "The 'states' are input orders; the transition relation is the sort's comparison sequence; every enumerated order containing a conflict must be rejected with an error naming it, through list and diff, whatever surrounds it (workloads, no workload at all, Services of other namespaces first / last).",
          "Base-order families for large n are bounded.", "§3 C19"),
 }
 NOT_YET = "check not built yet in this revision of /verif (planned in DESIGN.md §3)"
